@@ -36,6 +36,11 @@ def run(ctx):
                      'through it', 10)
     ctx.rule('R12b2', 'cross-table: every environment the walker parses in math mode has a latex2text '
                       'spec routed to fmt_equation_environment', 10)
+    ctx.rule('R12f', 'no comment reaches the renderer less than the source has: the delimited-expression '
+                     'parser lists every token it read when an optional argument turns out to be absent '
+                     '(shared with C02 R02f), so comments in front of it are not dropped', 1)
+    ctx.rule('R12e', 'parameter liveness of the text-spec factories and constructors (MacroDef, EnvDef, '
+                     'SpecialsDef, fmt_* helpers, *TextSpec.__init__): every accepted parameter is used', 10)
     ctx.rule('R12c', 'arguments/body of macros, environments and specials are rendered only when '
                      'the spec is not discarded; MacroTextSpec discards by default when no '
                      'replacement is given (table entries relying on that default are enumerated)', 5)
@@ -263,6 +268,29 @@ def run(ctx):
     ctx.decide('R12c', okd, m, dm[0] if dm else mn, 'unknown macros are discarded',
                'the fallback spec for unknown macros is not MacroTextSpec(\'\', discard=True)',
                construct='macro_node_to_text: unknown macro fallback')
+    # ------------------------------------------------------------------ R12f
+    from . import c02, c05
+    c02.first_tokens_complete(c05._Sub(ctx, 'R12f'), repo, 'R12f')
+    # ------------------------------------------------------------------ R12e
+    # the spec factories (legacy MacroDef/EnvDef/SpecialsDef, and the spec classes' constructors)
+    # use every filter-relevant parameter they accept: a dropped `discard=` leaks the content
+    n_live = 0
+    for q, f in sorted(m.functions.items()):
+        parts = q.split('.')
+        is_factory = len(parts) == 1 and not q.startswith('_')
+        is_spec_init = len(parts) == 2 and parts[1] == '__init__' and parts[0].endswith('TextSpec')
+        if not (is_factory or is_spec_init):
+            continue
+        params = [a.arg for a in f.args.args + f.args.kwonlyargs if a.arg not in ('self', 'cls')]
+        used = {n.id for n in ast.walk(f) if isinstance(n, ast.Name) and isinstance(n.ctx, ast.Load)}
+        for p_ in params:
+            n_live += 1
+            ctx.decide('R12e', p_ in used, m, f, 'parameter %s is used' % p_,
+                       '%s accepts the parameter %s but never uses it: a specification declared with '
+                       '%s=... (e.g. discard=True through the legacy helper or env_dict=) silently gets the '
+                       'default, so content that was to be discarded is rendered' % (q, p_, p_),
+                       construct='%s: parameter %s' % (q, p_), trivial=True)
+    ctx.analysed['factory_parameters_checked'] = n_live
     ctx.assume('specs supplied by the user (custom latex_context) are outside the cross-table rule')
     return 'other', (
         'Decides the gates through which comments, formula content and discarded constructs can '
